@@ -164,6 +164,8 @@ func init() {
 			{"counter0-fill9", 0, []string{"x", "x1"}, true, 4},
 			// consumer names whose characters mean something in a URL path: the reference must still designate the session
 			{"counter0-url-characters", 0, []string{"x%2Fy", "x%41", "x y", "x+y", "x?y#z", "x%zz"}, false, 2},
+			// names that differ in case or in surrounding blanks only
+			{"counter0-case-and-blanks", 0, []string{"x", "X", "x ", " x"}, false, 3},
 		}
 		if rep.Tier == "thorough" {
 			scs[0].depth, scs[1].depth, scs[2].depth, scs[3].depth = 4, 4, 4, 5
